@@ -531,9 +531,10 @@ def fam_free_scale(T=3):
     Returns groups of configurations (one per candidate scale) sharing 'group'."""
     ids = Ids()
     out = []
-    for g, (fix, pr) in enumerate(itertools.product((0, 1, 3), ([1, 1, 1], [1, 5, 2]))):
+    # bounds of the base asset per unit of scale: from zero, must-run at a fixed level, must-run with head room, must-take (all excluding zero but the first)
+    for g, (fix, pr, (blo, bhi)) in enumerate(itertools.product((0, 1, 3), ([1, 1, 1], [1, 5, 2]), [(0, 2), (1, 1), (1, 2), (-2, -1)])):
         for s in (1, 2, 3):
-            x = F.contract(T, 'n1', 0, 2 * s, pr, scale=(s, 1, fix), fixrate=s * fix, scale_range=(1, 3), fws=1, fwe=T + 1)
+            x = F.contract(T, 'n1', blo * s, bhi * s, pr, scale=(s, 1, fix), fixrate=s * fix, scale_range=(1, 3), fws=1, fwe=T + 1)
             out.append(F.make_cfg(ids(), T, [slack(T, 'n1', 3, lo=-8, hi=8), x], group=g, variant='free_scale', scale=(s, 1, fix)))
     return out
 
